@@ -118,7 +118,7 @@ pub struct PkceGenCase {
 impl CaseInput for PkceGenCase {
     const OP: &'static str = "pkce_gen";
     fn generate(r: &mut Rng, idx: u64) -> Self {
-        let n = if idx <= 201 { (idx - 1) as u32 } else { *r.pick(&[0u32, 31, 32, 33, 64, 95, 96, 97, 128, 200, u32::MAX, 1 << 31]) };
+        let n = if idx <= 201 { (idx - 1) as u32 } else { *r.pick(&[0u32, 31, 32, 33, 64, 95, 96, 97, 128, 200, 255, 256, 287, 288, 300, 352, 353, 512 + 64, 65536 + 32, 65536 + 96, (1 << 24) + 40, u32::MAX, u32::MAX - 200, 1 << 31, (1 << 31) + 64]) };
         PkceGenCase { n, api: if idx > 201 && r.chance(1, 3) { 1 + r.below(2) as u8 } else { 0 } }
     }
     fn exec(&self) -> Exec {
@@ -181,7 +181,7 @@ pub struct RandCase {
 impl CaseInput for RandCase {
     const OP: &'static str = "rand";
     fn generate(r: &mut Rng, idx: u64) -> Self {
-        RandCase { n: if idx <= 97 { (idx - 1) as u32 } else { r.below(97) as u32 }, default_api: idx > 97 && r.chance(1, 4) }
+        RandCase { n: if idx <= 97 { (idx - 1) as u32 } else if r.chance(1, 6) { *r.pick(&[100u32, 127, 128, 255, 256, 257, 300, 1000, 4096, 65535, 65536, 65537]) } else { r.below(97) as u32 }, default_api: idx > 97 && r.chance(1, 4) }
     }
     fn exec(&self) -> Exec {
         let t = if self.default_api { CsrfToken::new_random() } else { CsrfToken::new_random_len(self.n) };
